@@ -190,7 +190,7 @@ func (c *Client) pre(ctx context.Context, op, key string) (func(errs string, siz
 		c.S.mu.Lock()
 		c.S.log = append(c.S.log, Req{Seq: len(c.S.log), Client: c.Name, Op: op, Key: key, Err: errs, Size: size})
 		c.S.mu.Unlock()
-		if c.S.Sched != nil {
+		if c.S.Sched != nil && !strings.Contains(key, "/node/") {
 			c.S.Sched.done(c.Name)
 		}
 	}
@@ -304,7 +304,9 @@ func (s *Scheduler) Free(name string, v bool) {
 func (s *Scheduler) wait(name, op, key string) {
 	s.mu.Lock()
 	defer s.mu.Unlock()
-	if s.free[name] {
+	// node objects are content-addressed and write-once: their requests commute with everything
+	// (nothing refers to a node before the version PUT), so only root/ requests are scheduled
+	if s.free[name] || strings.Contains(key, "/node/") {
 		return
 	}
 	s.parked[name] = op + " " + key
@@ -322,6 +324,10 @@ func (s *Scheduler) done(name string) {
 	s.mu.Unlock()
 	s.cond.Broadcast()
 }
+
+// Lock/Unlock/Wait give callers access to the scheduler's condition for their own flags.
+func (s *Scheduler) Lock()   { s.mu.Lock() }
+func (s *Scheduler) Unlock() { s.mu.Unlock() }
 
 // Parked reports what the client is parked on, or "" if it is not parked.
 func (s *Scheduler) Parked(name string) string {
